@@ -31,7 +31,9 @@ MANIFEST = {
             "field by field and pixel by pixel (scalar and multi-channel); the anchors origin = position of sample 0, "
             "direction columns = unit steps, stored center = position of index (n-1)/2 are checked against ITK; "
             "Grid(origin=, center=) with both given accepts float64-consistent pairs and rejects grossly inconsistent ones; the numpy "
-            "GridAttrs of utils.simpleitk (maps, header, center property, center= route) is compared with ITK at float64 accuracy. Exploration, "
+            "GridAttrs of utils.simpleitk (maps, header, center property, center= route) is compared with ITK at float64 accuracy; grids with a "
+            "history (1-2 derivation steps with deepali's own Grid methods from a parent that was already used) are compared with ITK for "
+            "the header they themselves report and write. Exploration, "
             "not proof; the discrete errors aimed at (transposed direction, n vs n-1, swapped axes) are >= 4 orders of "
             "magnitude above the bounds.",
     "note": "Trusted: SimpleITK 2.x (ITK 5) image geometry, GetPixel, numpy bridge and file IO; vlib.ref.GridModel only to "
@@ -49,6 +51,9 @@ ASSUMPTIONS = [
     "Grid(origin=, center=): 'inconsistent' is only asserted for a center displaced by the whole grid extent along every axis",
     "GridAttrs.center is compared with the ITK position of index (n-1)/2 (the convention of the property statement and of "
     "deepali.core.Grid); on the pinned tree the property and the center= argument raise before any convention can be observed",
+    "derived grids: the geometry handed to ITK is the one the derived Grid object reports (size, spacing, direction, center); how "
+    "deepali derives those attributes is property C03's subject; steps that would give a fractional internal size, resize an axis with "
+    "a single sample, or leave fewer samples than requested are not generated (skipped and counted)",
     "pixel types uint8, int16, int32, float32, float64 (SimpleITK has no bool/float16; deepali documents the uint16->int32 and "
     "uint32->int64 widening of tensor_from_image, which is not generated)",
 ]
@@ -679,6 +684,57 @@ def run_grid_attrs(case):
     return {"ratio": r, "nontrivial": nontrivial_geometry(g) and gen.grid_is_anisotropic(g), "labels": labels_of(case) + [f"op={op}"]}
 
 
+
+# ---------------------------------------------------------------------------------------
+# facet 8: grids with a history - derived from a *used* parent by deepali's own methods
+
+
+@st.composite
+def derived_cases(draw):
+    D = draw(gen.dims())
+    g = draw(geometries(D, max_size=24))
+    return {"D": D, "grid": g, "route": draw(st.sampled_from(ROUTES)), "derive": draw(gen.derivation_steps(D)),
+            "rel": draw(st.lists(st.lists(gen.qfloat(-0.5, 1.5, 0.001), min_size=D, max_size=D), min_size=1, max_size=4)),
+            "dtype": draw(gen.dtypes())}
+
+
+def run_derived(case):
+    """The index <-> world maps of a Grid obtained from another Grid object (after that one was used) must agree
+    with ITK for the header the derived grid itself reports and writes (size, spacing, direction, origin)."""
+    from deepali.data import Image
+    from vlib.case import derive_grid, model_of_grid
+
+    g = case["grid"]
+    m0 = ref.GridModel.from_desc(g)
+    grid, ops = derive_grid(build_grid(g, m0, case["route"]), case["derive"])
+    m = model_of_grid(grid)  # float64 geometry from the attributes the derived grid reports (center form)
+    img = itk_image(m)
+    dt = tdtype(case["dtype"])
+    idx = np.asarray(case["rel"], dtype=np.float64) * (m.n - 1)
+    idx_t = torch.tensor(idx, dtype=dt)
+    idx = idx_t.double().numpy()
+    world = itk_index_to_world(img, idx)
+    bw = K_MAP * EPS32 * world_scale(m, world)
+    r = check_close(grid.index_to_world(idx_t), world, bw, "derived_index_to_world_vs_itk",
+                    f"grid derived via {ops}: index_to_world vs ITK image with the header the grid reports")
+    p_t = torch.tensor(world, dtype=dt)
+    back = itk_world_to_index(img, p_t.double().numpy())
+    r = max(r, check_close(grid.world_to_index(p_t, decimals=None), back, K_MAP * EPS32 * index_scale(m, world), "derived_world_to_index_vs_itk",
+                           f"grid derived via {ops}: world_to_index vs ITK"))
+    scale = float(np.abs(m.o).max()) + extent_of(m)
+    r = max(r, check_close(grid.origin(), np.array(img.GetOrigin()), K_HDR * EPS32 * max(scale, 1e-30), "derived_origin_vs_itk",
+                           f"grid derived via {ops}: origin() vs ITK position of index 0"))
+    if int(np.prod(m.n)) <= 4096:
+        # the header deepali writes for an image on the derived grid, read by ITK
+        out = Image(torch.zeros((1,) + tuple(int(v) for v in m.n[::-1])), grid).sitk()
+        r = max(r, check_itk_header(out, m, f"Image(zeros, grid derived via {ops}).sitk()", "derived_image_sitk_"))
+        w2 = itk_index_to_world(out, idx)
+        r = max(r, check_close(grid.index_to_world(idx_t), w2, bw, "derived_index_to_world_vs_written_header",
+                               f"grid derived via {ops}: index_to_world vs ITK on the header written by Image.sitk()"))
+    return {"ratio": r, "nontrivial": nontrivial_geometry(g) and len(ops) > 0,
+            "labels": labels_of(case) + [case["dtype"]] + [f"via={o}" for o in sorted(set(ops))]}
+
+
 FACETS = [
     Facet("index_to_world", run_index_to_world, strategy=i2w_cases,
           rule="geometry x route (origin= / center= from the float64 model / from_sitk) x continuous indices in [-10, n+9] x dtype x API "
@@ -708,4 +764,10 @@ FACETS = [
           rule="geometry x {maps and header of image_grid_attributes, center property, center= constructor route} of "
                "utils.simpleitk.grid.GridAttrs vs ITK (float64 bounds); non-trivial = direction != I, origin != 0, anisotropic spacing",
           quick=200, thorough=5000, shards=8, quick_shards=1),
+    Facet("derived_grids", run_derived, strategy=derived_cases,
+          rule="geometry (sizes <= 24) x route x 1-2 derivation steps with deepali's own Grid methods (spacing/direction/center/origin/"
+               "align_corners with-ers, resize, reshape, resample, down/upsample, crop, pad, center_crop/pad, narrow, clone, copy, "
+               "deepcopy, pickle), each applied after a generated set of read-only calls on the parent; index<->world maps, origin() and "
+               "the header written by Image.sitk() vs ITK for the geometry the derived grid reports; non-trivial = direction != I and origin != 0",
+          quick=500, thorough=8000, shards=16, quick_shards=2),
 ]
